@@ -89,6 +89,19 @@ def run_line(case):
     back = Contentline.from_ical(out.decode("utf-8", "replace"))
     if str(back) != line:
         fails.append({"cls": "line:library-unfold-differs", "case": case, "expected": line, "observed": str(back)})
+    # the same line handed over as bytes with an explicit input encoding (the documented second argument; utf-8-sig is what
+    # files with a byte-order mark are read with): the INPUT encoding does not change what is written
+    for enc, data_, marked in (("utf-8", line.encode("utf-8"), True), ("utf-8-sig", b"\xef\xbb\xbf" + line.encode("utf-8"), True),
+                               ("utf-8-sig", line.encode("utf-8"), False)):
+        if not marked and line.startswith("\ufeff"):
+            continue  # without an explicit mark in front, the line's own leading U+FEFF IS the mark for this codec
+        try:
+            o2 = Contentline(data_, encoding=enc).to_ical()
+        except Exception as e:  # noqa: BLE001
+            o2 = f"{type(e).__name__}: {e}"
+        if o2 != out:
+            fails.append({"cls": "line:bytes-input-with-encoding-argument-folds-differently", "case": case, "expected": out[:90], "observed": (enc, o2[:90])})
+            break
     # the same through the Contentlines container (what Component.to_ical uses): CRLF terminated
     outs = Contentlines([cl, ""]).to_ical() if line else b"\r\n"
     if not outs.endswith(b"\r\n") or (line and outs[:-2] != out):
